@@ -13,7 +13,7 @@ mkdir -p "$W"
 trap 'git -C /repo worktree remove --force "$W/repo" >/dev/null 2>&1 || true; rm -rf "$W"' EXIT
 git -C /repo worktree add --detach "$W/repo" HEAD >/dev/null 2>&1
 git -C "$W/repo" apply "$S/patch.diff"
-rsync -a --exclude .git --exclude replays --exclude evidence /verif/ "$W/verif/"
+rsync -a --exclude .git --exclude replays --exclude evidence --exclude "build/*tmp" /verif/ "$W/verif/" || [ $? = 24 ]
 mkdir -p "$W/verif/evidence" "$W/verif/replays"
 cd "$W/verif"
 set +e
